@@ -57,7 +57,7 @@ def check(repo, tier="quick"):
     res.floor("C04.f", 3)
     res.floor("C04.a", 6)
     res.floor("C04.b", 6)
-    res.floor("C04.c", 8)
+    res.floor("C04.c", 9)
     res.floor("C04.d", 2)
     res.assumptions = [
         "exactness of the transform is C11; quantisation at index 0 being the identity is arithmetic (forward_quant(c, 0) = 4|c| // 4)",
@@ -334,6 +334,15 @@ def rule_c(repo, res):
                             qmv = [c for c in app if isinstance(c.func.value, ast.Attribute) and c.func.value.attr == "quant_matrix_values" and isinstance(c.args[0], ast.Subscript) and isinstance(c.args[0].value, ast.Subscript) and subscript_key(c.args[0].value.value, "state") == "quant_matrix"]
                             raster_ok = len(coeff) == 1 and len(qmv) == 1 and len(app) == 2
     res.check(raster_ok, "C04.c", "encoder:raster-order-in-slice", where, "per slice (sy outer, sx inner) the coefficients must be appended row-major over range(top, bottom) x range(left, right), each paired with state['quant_matrix'][level][orient]", by="sy, sx, y, x nest over the spec's slice bounds with paired appends")
+    # every subband of every component contributes: the gathering loops contain no skip, exit or condition
+    tm, tfn = repo.func("encoder.pictures:transform_and_slice_picture")
+    gather = [l for l in ast.walk(tfn) if isinstance(l, ast.For) and isinstance(l.iter, (ast.List, ast.Tuple)) and [const_str(e) for e in l.iter.elts] == ["y_transform", "c1_transform", "c2_transform"]]
+    cond = []
+    if len(gather) == 1:
+        for x in ast.walk(gather[0]):
+            if isinstance(x, (ast.Continue, ast.Break, ast.Return, ast.If, ast.Try, ast.While)) or (isinstance(x, (ast.ListComp, ast.GeneratorExp)) and any(g.ifs for g in x.generators)):
+                cond.append("%s at line %d" % (type(x).__name__.lower(), x.lineno))
+    res.check(len(gather) == 1 and not cond, "C04.c", "encoder:every-subband-gathered", where, "the loops that collect each slice's coefficients (components, levels, orientations, slices, rows, columns) must run unconditionally: the decoder reads a coefficient for every position of every subband in a fixed order, so a skipped (e.g. all-zero) subband shifts every later coefficient of the slice (found %s)" % (cond or "gathering loop not found"), by="no continue/break/if inside the gathering loops")
     # LD chroma interleave: C1 then C2
     lm, ld = repo.func("encoder.pictures:make_transform_data_ld_lossy")
     calls = [c for c in ast.walk(ld) if isinstance(c, ast.Call) and dotted(c.func) == "interleave"]
